@@ -116,6 +116,10 @@ type World struct {
 	// reading the configuration and building the entities that follow the first write.
 	WriteDelay time.Duration `json:"-"`
 
+	// Symlinks: link path -> target path (both relative to the directory). Only the command-line driver,
+	// which materialises the world on the native filesystem, can realise them; the in-memory view ignores them.
+	Symlinks map[string]string `json:"symlinks,omitempty"`
+
 	// ReadFaults: reading the named file returns its first N bytes and then an I/O error.
 	ReadFaults map[string]int `json:"-"`
 
@@ -135,6 +139,12 @@ func New(mode int) *World {
 
 func (w *World) Clone() *World {
 	n := &World{Files: make(map[string]*File, len(w.Files)), Clock: w.Clock, ClockMode: w.ClockMode}
+	if w.Symlinks != nil {
+		n.Symlinks = map[string]string{}
+		for k, v := range w.Symlinks {
+			n.Symlinks[k] = v
+		}
+	}
 	for p, f := range w.Files {
 		n.Files[p] = &File{Data: f.Data, Tick: f.Tick} // Data is never mutated in place
 	}
